@@ -186,7 +186,11 @@ func main() {
 	r := h.Start("C11")
 	defer r.Finish()
 	respgen.ScratchDir = scratchDir(r)
-	env, err := respgen.NewEnv(guardalloc.Options{Fault: *fault, QuarantineBytes: 64 << 20})
+	// every second process runs with an allocator that moves a buffer when Append has to grow it
+	// (new pointer, old buffer freed - what mempool.AlignedAllocator does): code that keeps the old
+	// pointer uses a freed buffer there
+	move := !*fault && r.Shard%2 == 1
+	env, err := respgen.NewEnv(guardalloc.Options{Fault: *fault, QuarantineBytes: 64 << 20, MoveOnGrow: move})
 	if err != nil {
 		r.Inconclusive("cannot set up the scratch directory: " + err.Error())
 		return
@@ -196,7 +200,11 @@ func main() {
 	if *fault {
 		r.Seen("allocator_mode", "fault")
 	} else {
-		r.Seen("allocator_mode", "shadow")
+		if move {
+			r.Seen("allocator_mode", "shadow+move-on-grow")
+		} else {
+			r.Seen("allocator_mode", "shadow")
+		}
 	}
 
 	run := func(c *caseT) {
